@@ -31,6 +31,7 @@ def gen(rng, tier):
     for i in range(64 * mult):
         p = bytes(rng.randrange(1, 256) for _ in range(rng.choice([0, 1, 31, 32, 33, 64, 100])))
         l = "ssconc %s" % hexs(p); cases.append(Case(l, "secret_string len=%d" % len(p), len(p) > 0, spec=l))
+        l = "sshandoff %s" % hexs(p); cases.append(Case(l, "secret_string handed to another thread len=%d" % len(p), len(p) > 0, spec=l))
         d = bytes(rng.randrange(1, 256) for _ in range(rng.choice([0, 1, 16, 100]))); l = "sbconc %s" % hexs(d); cases.append(Case(l, "secure_buffer len=%d" % len(d), len(d) > 0, spec=l))
     rng.shuffle(cases)
     return cases
